@@ -117,6 +117,16 @@ def parse_verus(res, fns, gen_lines=None):
             continue
         kind = classify_message(msg)
         spans = d.get('spans', [])
+        # spans into other files (definition sites of std macros such as matches!) carry line numbers that mean nothing
+        # in the generated file: follow them to their expansion site, or drop them
+        def _own(sp, depth=0):
+            if sp.get('file_name', '').endswith('.rs') and not os.path.isabs(sp.get('file_name', '')):
+                return sp
+            ex = (sp.get('expansion') or {}).get('span')
+            return _own(ex, depth + 1) if ex and depth < 6 else None
+        own = [x for x in (_own(sp) for sp in spans) if x]
+        if own:
+            spans = own
         prim = [s for s in spans if s.get('is_primary')]
         lines = [(s['line_start'], s.get('label') or '', s.get('is_primary')) for s in spans]
         if kind is None:
@@ -324,8 +334,12 @@ def verify_unit(repo, unit_dir, workdir, canary=True, rlimit=None):
                         if f['fn'] in relax:
                             f['relaxed'] = True
                     keep = [f for f in pr2['failures'] if f['fn'] in relax]
-                    if keep:
-                        out['relaxed_fns'] = relax
+                    # adopted in both cases: the relaxed functions fail (violation only together with a failing witness),
+                    # or they VERIFY without their position-based annotations (the annotations were not needed any more)
+                    if True:
+                        out['relaxed_fns'] = relax if keep else []
+                        if not keep:
+                            out['annotations_dropped_for'] = relax
                         out['undecided'] = [u for u in out['undecided'] if u not in pr['undecided']]
                         out['undecided_original'] = pr['undecided']
                         pr = pr2
